@@ -1,7 +1,7 @@
 """C18 — the bundled JSON grammar accepts exactly RFC 8259 JSON."""
 from props.common import *
 
-MODULE = "PestModel.Thm.C18"
+MODULE = ["PestModel.Thm.C18", "PestModel.Thm.Capstone"]
 DRV, MODE = "drv_json", "grammar"
 
 
@@ -17,7 +17,7 @@ def run(ctx):
             "RFC 8259 is transcribed twice, independently of json.pest: PestModel.Json.jsonText (Lean, also builds the document tree) and rfc_accepts (Rust); neither is another JSON library",
             "json.pest is REGENERATED into a Lean value on every run (tr_grammar); nesting beyond depth 150 is not exercised (native stack depth is outside any executable model)",
         ],
-        leancheck=[MODULE],
+        leancheck=MODULE,
     )
 
 
